@@ -149,9 +149,57 @@ def run(ctx):
         encode_cases(ctx, enc)
         for i in range(0, len(cases), 5000):
             run_cases(ctx, cases[i:i + 5000])
+    interleave_stream(ctx)
+
+
+def interleave_stream(ctx):
+    """codec objects of the two reedsolo table families built one after the other with the SAME n, then a NEW object of the
+    first family: its parity must be the model's and its check must accept it (the module-global tables must be
+    re-initialised by every construction; a cache keyed on the geometry would keep another field's tables)"""
+    from pyFileFixity.lib.eccman import ECCMan
+    rng = ctx.rng
+    R._cache['fam'] = None; R._cache['objs'].clear()
+    for n, k in ((20, 11), (12, 5), (40, 30)):
+        for order in ((3, 4, 3), (4, 3, 4), (3, 4, 4, 3), (4, 3, 3, 4), (3, 4, 1, 3)):
+            m = bytes(rng.randrange(256) for _ in range(k))
+            try:
+                last = None
+                for a in order:
+                    last = ECCMan(n, k, algo=a)
+                p = bytes(last.encode(m))
+                with R.quiet():
+                    ok = bool(last.check(m, p))
+                    w = bytearray(m + p); w[0] ^= 1
+                    bad = bool(last.check(bytes(w[:k]), bytes(w[k:])))
+            except Exception as ex:
+                p, ok, bad = ('EXC', repr(ex)), False, True
+            algo = order[-1]
+            o1, o2 = ctx.model.run(['enc %d %d %d 0 %s' % (algo, n, k, hx(m)), 'chk %d %d %d 0 %s %s' % (algo, n, k, hx(m), hx(p) if isinstance(p, bytes) else '-')])
+            ctx.evaluations += 1
+            ctx.count('interleaved_constructions')
+            case = {'kind': 'interleave', 'order': list(order), 'n': n, 'k': k, 'm': m.hex()}
+            if not isinstance(p, bytes) or p != unhx(o1):
+                ctx.disagree(case, o1, p.hex() if isinstance(p, bytes) else p, what='parity of a codec built after another table family != model')
+            if not ok or bad:
+                ctx.fail(case, {'check_of_own_parity': ok, 'check_of_one_symbol_error': bad, 'parity': p.hex() if isinstance(p, bytes) else p, 'model_parity': o1})
+            else:
+                ctx.traces += 1
+    R._cache['fam'] = None; R._cache['objs'].clear()
 
 
 def replay_case(ctx, case):
+    if case.get('kind') == 'interleave':
+        from pyFileFixity.lib.eccman import ECCMan
+        n, k, m = case['n'], case['k'], bytes.fromhex(case['m'])
+        last = None
+        for a in case['order']:
+            last = ECCMan(n, k, algo=a)
+        p = bytes(last.encode(m))
+        with R.quiet():
+            ok = bool(last.check(m, p))
+        R._cache['fam'] = None; R._cache['objs'].clear()
+        model = ctx.model.run(['enc %d %d %d 0 %s' % (case['order'][-1], n, k, hx(m))])[0]
+        return {'holds': ok and p == unhx(model), 'check_of_own_parity': ok, 'parity': p.hex(), 'model_parity': model}
     algo, n, sk, k = case['algo'], case['n'], case['selfk'], case['k']
     if case.get('kind') == 'gf-table':
         return {'holds': R.gf_tables_check(ctx)}
